@@ -78,13 +78,15 @@ class Run:
             f.write(mod)
         shutil.copy(os.path.join(HARNESS, "go.sum"), os.path.join(self.dir, "go.sum"))
 
-    def build_test(self, pkg, race=False):
-        out = os.path.join(self.dir, "bin", pkg + (".race" if race else "") + ".test")
+    def build_test(self, pkg, race=False, fuzz=False):
+        out = os.path.join(self.dir, "bin", pkg + (".race" if race else "") + (".fuzz" if fuzz else "") + ".test")
         if os.path.exists(out):
             return out
         cmd = ["go", "test", "-c", "-modfile=" + self.modfile, "-tags", "verif", "-vet=off", "-o", out]
         if race:
             cmd.append("-race")
+        if fuzz:
+            cmd.append("-fuzz=Fuzz")  # coverage instrumentation for the native fuzzer
         cmd.append("./" + pkg)
         p = subprocess.run(cmd, cwd=HARNESS, env=goenv(), stdout=subprocess.PIPE, stderr=subprocess.STDOUT, text=True)
         if p.returncode != 0 or not os.path.exists(out):
@@ -201,6 +203,7 @@ def check(pid, tier, seed):
     run = Run(pid)
     violations = []  # replay paths
     inconclusive = []
+    fuzz_stats = {}
     known_lines = []
     try:
         K = spec.get("shards", {}).get(tier, 4 if tier == "quick" else 16)
@@ -215,11 +218,11 @@ def check(pid, tier, seed):
             if tier not in u.get("tiers", ("quick", "thorough")):
                 continue
             race = u.get("race", False)
-            key = (u.get("pkg", spec["pkg"]), race)
-            if key not in bins:
-                bins[key] = run.build_test(key[0], race)
-            binp = bins[key]
             kind = u.get("kind", "rapid")
+            key = (u.get("pkg", spec["pkg"]), race) if kind != "fuzz" else (u.get("pkg", spec["pkg"]), "fuzz")
+            if key not in bins:
+                bins[key] = run.build_test(key[0], race, kind == "fuzz")
+            binp = bins[key]
             n = u["n"][tier]
             shards = u.get("shards", {}).get(tier, K)
             for k in range(shards):
@@ -249,6 +252,7 @@ def check(pid, tier, seed):
                     cmd = [binp, "-test.run", "^$", "-test.fuzz", "^%s$" % u["test"], "-test.fuzztime", "%ds" % n,
                            "-test.fuzzcachedir", cdir, "-test.parallel", str(u.get("workers", 16)), "-test.timeout", "0"]
                     env["VERIF_CORPUS"] = src
+                    env.pop("VERIF_PART", None)  # worker processes would clobber one another's parts
                 timeout = u.get("timeout", {}).get(tier, 900 if tier == "quick" else 7200)
                 jobs.append(Job(name, cmd, env, wd, os.path.join(run.dir, "logs", name + ".log"), failpath, env["VERIF_PART"], timeout, kind, n))
         # fuzz jobs use all cores: run them alone, after the others
@@ -262,6 +266,11 @@ def check(pid, tier, seed):
             if j.timed_out:
                 inconclusive.append("%s: wall-clock cap of %ds hit" % (j.name, j.timeout))
                 continue
+            if j.kind == "fuzz":
+                import re
+                m = re.findall(r"execs: (\d+) \(\d+/sec\), new interesting: \d+ \(total: (\d+)\)", out)
+                if m:
+                    fuzz_stats[j.name.rsplit(".", 1)[0]] = (int(m[-1][0]), int(m[-1][1]), j.requested)
             if j.rc == 0:
                 if j.kind == "rapid":
                     # rapid prints "OK, passed N tests" - fewer than requested means a deadline cut it short
@@ -322,7 +331,7 @@ def check(pid, tier, seed):
             elif status == "ERROR":
                 inconclusive.append("replay %s: %s" % (path, msg))
 
-        ev = merge_evidence(pid, tier, seed, run, spec, time.time() - t0, len(violations), reg_total, inconclusive)
+        ev = merge_evidence(pid, tier, seed, run, spec, time.time() - t0, len(violations), reg_total, inconclusive, fuzz_stats)
         os.makedirs(os.path.join(OUT, "evidence"), exist_ok=True)
         with open(os.path.join(OUT, "evidence", pid + ".json"), "w") as f:
             json.dump(ev, f, indent=1, ensure_ascii=False)
@@ -392,10 +401,15 @@ def replay_files(run, spec, bins, files):
     return res
 
 
-def merge_evidence(pid, tier, seed, run, spec, wall, nviol, nreg, inconclusive):
+def merge_evidence(pid, tier, seed, run, spec, wall, nviol, nreg, inconclusive, fuzz_stats=None):
     pdir = os.path.join(run.dir, "parts")
     units = {}
     hashes = {}
+    for target, (execs, interesting, secs) in (fuzz_stats or {}).items():
+        units["fuzz:" + target] = {
+            "rule": "native coverage-guided fuzzing (go test -fuzz %s, %d s, 16 workers, seeded with the hostile constants); the target decodes the bytes into a case of the byte-level unit and runs the same check; evaluations = executions, distinct non-trivial = corpus entries that reached new coverage (as counted by the fuzzer)" % (target, secs),
+            "evaluations": execs, "in_domain": execs, "nontrivial": interesting, "excluded": {}, "classes": {}, "samples": [],
+            "extra": {"distinct_by_construction": interesting}, "shards": 1}
     for f in sorted(os.listdir(pdir)):
         if not f.endswith(".json"):
             continue
